@@ -68,8 +68,13 @@ class AEv:
 
 
 class World:
-    def __init__(self, rnd, codes=None, big_tids=True, allow_zero_tid=True):
+    def __init__(self, rnd, codes=None, big_tids=True, allow_zero_tid=True, ts='inc'):
         self.rnd = rnd
+        # timestamps of the concrete records: strictly increasing, coarse ticks (runs of EQUAL timestamps, as two
+        # records written back to back share a timebase tick) or all equal.  Event identity never uses timestamps
+        # in the checks that pass ts='any'.
+        self.ts_mode = rnd.choice(['inc', 'inc', 'tied', 'tied', 'const']) if ts == 'any' else ts
+        self.ts_g = rnd.choice([2, 3, 5])
         self.codes = dict(default_codes()) if codes is None else codes
         self.parser_codes = self.codes        # the table handed to the code (may be the code's own parse of a text)
         self.name2id = {}
@@ -94,6 +99,11 @@ class World:
             v.sort()
         handled = set(AUDIT)
         self.known_names = sorted(n for n in self.name2id if n not in handled and n != UNDECODED_RFA)
+        # named codes WITHOUT a decoder that sit next to decoded ones: the whole trace class (lost events, panic,
+        # timestamps ...) and the subclasses that also hold decoded codes - the likeliest place for a special case
+        hsub = {self.name2id[n] >> 16 for n in handled if n in self.name2id}
+        self.trace_known = [n for n in self.known_names if self.name2id[n] >> 24 == 7]
+        self.near_known = [n for n in self.known_names if self.name2id[n] >> 16 in hsub and self.name2id[n] >> 24 != 7]
         self.unknown_ids = []
         while len(self.unknown_ids) < 8:
             c = (rnd.getrandbits(30) << 2) & 0xfffffffc
@@ -192,8 +202,13 @@ class World:
         return self._mk(name, cls, q, t, {'x': 0}, words=words)
 
     def known(self, q, t, name=None):
-        name = name or self.rnd.choice(self.known_names)
-        return self._mk(name, 'KNOWN', q, t, {'x': 0}, words=tuple(self.rnd.getrandbits(64) for _ in range(4)))
+        if name is None:
+            r = self.rnd.random()
+            pool = self.trace_known if r < 0.35 and self.trace_known else (
+                self.near_known if r < 0.6 and self.near_known else self.known_names)
+            name = self.rnd.choice(pool)
+        words = tuple(self.rnd.choice([self.rnd.getrandbits(64), self.rnd.randrange(1, 9), 0]) for _ in range(4))
+        return self._mk(name, 'KNOWN', q, t, {'x': 0}, words=words)
 
     def unknown(self, q, t, eid=None):
         eid = eid if eid is not None else self.rnd.choice(self.unknown_ids)
@@ -303,8 +318,13 @@ class World:
                         words=tuple(self.addr(r) for r in franks))
 
     # ---- concretise
+    def ts(self, k):
+        if self.ts_mode == 'tied':
+            return 1000 + 10 * (k // self.ts_g)
+        return 1000 if self.ts_mode == 'const' else 1000 + 10 * k
+
     def concrete(self, aev, k):
-        return make_event(1000 + 10 * k, aev.debugid, aev.ctid, aev.words or (0, 0, 0, 0), aev.data)
+        return make_event(self.ts(k), aev.debugid, aev.ctid, aev.words or (0, 0, 0, 0), aev.data)
 
 
 def _b(s):
@@ -472,7 +492,7 @@ def describe(world, stream, upto=None):
     """Human-readable stream for replays."""
     out = []
     for k, a in enumerate(stream[:upto], 1):
-        out.append({'k': k, 'tid': a.abs['tid'], 'cls': a.abs['cls'], 'q': a.abs['q'], 'name': a.name,
+        out.append({'k': k, 'ts': world.ts(k), 'tid': a.abs['tid'], 'cls': a.abs['cls'], 'q': a.abs['q'], 'name': a.name,
                     'debugid': hex(a.debugid), 'words': [hex(w) for w in (a.words or ())],
                     'data': a.data.hex() if a.data else None, 'a': {x: y for x, y in a.abs['a'].items() if x != 'data'}})
     return out
